@@ -1,8 +1,15 @@
+// writesites lists every memory write reachable from the public entry points
+// of the go-jmespath package together with the origin of the written object,
+// and emits the list as a Lean 4 file.  See README.md.
 package main
 
 import (
 	"fmt"
+	"go/types"
 	"os"
+	"path/filepath"
+	"sort"
+	"strings"
 
 	"golang.org/x/tools/go/callgraph/cha"
 	"golang.org/x/tools/go/packages"
@@ -10,14 +17,426 @@ import (
 	"golang.org/x/tools/go/ssa/ssautil"
 )
 
+var rootNames = []string{"Search", "Compile", "MustCompile", "(*JMESPath).Search", "NewParser", "(*Parser).Parse", "NewLexer"}
+
+type analyzer struct {
+	prog      *ssa.Program
+	pkg       *ssa.Package
+	fns       []*ssa.Function // reachable package functions, sorted by name
+	entry     map[*ssa.Function]bool
+	callees   map[ssa.CallInstruction][]*ssa.Function // in-package callees per site
+	paramOrg  map[*ssa.Parameter]org
+	retOrg    map[*ssa.Function][]org
+	bad       map[string]string // per-call receiver type -> why it is not per-call after all
+}
+
+type record struct {
+	fn, file  string
+	line, col int
+	kind      string
+	o         Origin
+	detail    string
+}
+
+var outPath = "/verif/lean/Jmes/GeneratedWrites.lean"
+
+func refuse(what string, why interface{}) {
+	fmt.Fprintf(os.Stderr, "writesites: cannot %s: %v\n", what, why)
+	os.Remove(outPath) // never leave a stale result behind
+	os.Exit(3)
+}
+
+func typeOf(v interface{}) string { return fmt.Sprintf("%T", v) }
+
+var thePkg *types.Package
+
+func fnName(f *ssa.Function) string { return f.RelString(thePkg) }
+
 func main() {
-	cfg := &packages.Config{Mode: packages.LoadAllSyntax, Dir: os.Args[1]}
+	repo := "/repo"
+	if len(os.Args) > 1 {
+		repo = os.Args[1]
+	}
+	if len(os.Args) > 2 {
+		outPath = os.Args[2]
+	}
+	a := load(repo)
+	a.reach()
+	a.fixpoint()
+	recs := a.records()
+	if err := os.WriteFile(outPath, []byte(a.render(repo, recs)), 0o644); err != nil {
+		refuse("write "+outPath, err)
+	}
+}
+
+func load(repo string) *analyzer {
+	cfg := &packages.Config{Mode: packages.LoadAllSyntax, Dir: repo}
 	pkgs, err := packages.Load(cfg, ".")
 	if err != nil {
-		panic(err)
+		refuse("load the package in "+repo, err)
 	}
-	prog, sp := ssautil.AllPackages(pkgs, ssa.InstantiateGenerics)
+	if len(pkgs) != 1 {
+		refuse("load the package in "+repo, fmt.Sprintf("expected one package, found %d", len(pkgs)))
+	}
+	var errs []string
+	packages.Visit(pkgs, nil, func(p *packages.Package) {
+		for _, e := range p.Errors {
+			errs = append(errs, e.Error())
+		}
+	})
+	if len(errs) > 0 {
+		refuse("load and type-check the package in "+repo, fmt.Sprintf("%s (%d errors)", errs[0], len(errs)))
+	}
+	defer func() {
+		if r := recover(); r != nil {
+			refuse("build SSA for "+repo, r)
+		}
+	}()
+	prog, spkgs := ssautil.AllPackages(pkgs, 0)
+	if len(spkgs) != 1 || spkgs[0] == nil {
+		refuse("build SSA for "+repo, "no SSA package")
+	}
 	prog.Build()
-	_ = cha.CallGraph
-	fmt.Println(sp[0].Pkg.Path(), len(sp[0].Members))
+	thePkg = spkgs[0].Pkg
+	return &analyzer{prog: prog, pkg: spkgs[0], entry: map[*ssa.Function]bool{},
+		callees: map[ssa.CallInstruction][]*ssa.Function{}, paramOrg: map[*ssa.Parameter]org{},
+		retOrg: map[*ssa.Function][]org{}, bad: map[string]string{}}
+}
+
+func (a *analyzer) inPkg(f *ssa.Function) bool {
+	if f == nil {
+		return false
+	}
+	return f.Pkg == a.pkg || (f.Synthetic != "" && f.Object() != nil && f.Object().Pkg() == a.pkg.Pkg)
+}
+
+func (a *analyzer) lookup(name string) *ssa.Function {
+	if strings.HasPrefix(name, "(*") {
+		i := strings.Index(name, ").")
+		if tm := a.pkg.Type(name[2:i]); tm != nil {
+			return a.prog.LookupMethod(types.NewPointer(tm.Type()), a.pkg.Pkg, name[i+2:])
+		}
+		return nil
+	}
+	return a.pkg.Func(name)
+}
+
+// reach collects the functions reachable from the roots through CHA edges that
+// stay inside the package, plus methods of package types handed to calls that
+// leave the package (callbacks such as sort.Interface).
+func (a *analyzer) reach() {
+	cg := cha.CallGraph(a.prog)
+	seen := map[*ssa.Function]bool{}
+	var work []*ssa.Function
+	push := func(f *ssa.Function, entry bool) {
+		if entry {
+			a.entry[f] = true
+		}
+		if !seen[f] {
+			seen[f] = true
+			work = append(work, f)
+		}
+	}
+	for _, n := range rootNames {
+		f := a.lookup(n)
+		if f == nil {
+			refuse("find root function "+n, "not declared in package "+a.pkg.Pkg.Path())
+		}
+		push(f, true)
+	}
+	for len(work) > 0 {
+		f := work[0]
+		work = work[1:]
+		if n := cg.Nodes[f]; n != nil {
+			for _, e := range n.Out {
+				if c := e.Callee.Func; a.inPkg(c) && e.Site != nil {
+					dup := false
+					for _, x := range a.callees[e.Site] {
+						dup = dup || x == c
+					}
+					if !dup {
+						a.callees[e.Site] = append(a.callees[e.Site], c)
+					}
+					push(c, false)
+				}
+			}
+		}
+		for _, b := range f.Blocks {
+			for _, in := range b.Instrs {
+				site, ok := in.(ssa.CallInstruction)
+				if !ok || (!site.Common().IsInvoke() && a.inPkg(site.Common().StaticCallee())) {
+					continue
+				}
+				if _, isBuiltin := site.Common().Value.(*ssa.Builtin); isBuiltin {
+					continue
+				}
+				_, ops := a.callOperands(site)
+				for _, op := range ops { // look inside a varargs slice too
+					if al, ok := localRoot(op).(*ssa.Alloc); ok && al.Comment == "varargs" {
+						for _, r := range *al.Referrers() {
+							if ia, ok := r.(*ssa.IndexAddr); ok {
+								for _, s := range *ia.Referrers() {
+									if st, ok := s.(*ssa.Store); ok {
+										ops = append(ops, st.Val)
+									}
+								}
+							}
+						}
+					}
+				}
+				for _, op := range ops {
+					for {
+						if mi, ok := op.(*ssa.MakeInterface); ok {
+							op = mi.X
+						} else if ct, ok := op.(*ssa.ChangeType); ok {
+							op = ct.X
+						} else {
+							break
+						}
+					}
+					t := op.Type()
+					base := t
+					if p, ok := t.(*types.Pointer); ok {
+						base = p.Elem()
+					}
+					if n, ok := base.(*types.Named); !ok || n.Obj().Pkg() != a.pkg.Pkg {
+						continue
+					}
+					ms := a.prog.MethodSets.MethodSet(t)
+					for i := 0; i < ms.Len(); i++ {
+						if m := a.prog.MethodValue(ms.At(i)); m != nil {
+							push(m, true)
+						}
+					}
+				}
+			}
+		}
+	}
+	for f := range seen {
+		a.fns = append(a.fns, f)
+		a.retOrg[f] = make([]org, f.Signature.Results().Len())
+	}
+	sort.Slice(a.fns, func(i, j int) bool { return fnName(a.fns[i]) < fnName(a.fns[j]) })
+	for site, cs := range a.callees {
+		sort.Slice(cs, func(i, j int) bool { return fnName(cs[i]) < fnName(cs[j]) })
+		a.callees[site] = cs
+	}
+}
+
+// callOperands names the callee of a call and lists its operands, receiver
+// first; recvShift is 1 when operand 0 is the receiver.
+func (a *analyzer) callOperands(site ssa.CallInstruction) (string, []ssa.Value) {
+	c := site.Common()
+	if c.IsInvoke() {
+		return "(" + a.typeName(c.Value.Type()) + ")." + c.Method.Name(), append([]ssa.Value{c.Value}, c.Args...)
+	}
+	if f := c.StaticCallee(); f != nil {
+		return fnName(f), c.Args
+	}
+	return "dynamic " + a.typeName(c.Value.Type()), c.Args
+}
+
+func (a *analyzer) recvShift(site ssa.CallInstruction) int {
+	c := site.Common()
+	if c.IsInvoke() || (c.StaticCallee() != nil && c.StaticCallee().Signature.Recv() != nil) {
+		return 1
+	}
+	return 0
+}
+
+func instrs(f *ssa.Function, visit func(ssa.Instruction)) {
+	for _, b := range f.Blocks {
+		for _, in := range b.Instrs {
+			visit(in)
+		}
+	}
+}
+
+// fixpoint computes, from the bottom element fresh upwards: the origin of every
+// result of every function, the origin of every non-receiver parameter as the
+// join over all call sites, and whether the sorters' items are always fresh.
+func (a *analyzer) fixpoint() {
+	entryRecv := map[string]bool{} // receiver types of entry-point methods
+	for f := range a.entry {
+		if f.Signature.Recv() != nil {
+			entryRecv[a.typeName(f.Params[0].Type())] = true
+		}
+	}
+	for changed := true; changed; {
+		changed = false
+		for _, f := range a.fns {
+			instrs(f, func(in ssa.Instruction) {
+				switch in := in.(type) {
+				case *ssa.Return:
+					for i, r := range in.Results {
+						if o := a.origin(r, seenSet{}); o.o > a.retOrg[f][i].o {
+							a.retOrg[f][i], changed = o, true
+						}
+					}
+				case *ssa.Store:
+					fa, ok := in.Addr.(*ssa.FieldAddr)
+					if !ok {
+						return
+					}
+					tn := a.typeName(fa.X.Type())
+					st, _ := fa.X.Type().Underlying().(*types.Pointer).Elem().Underlying().(*types.Struct)
+					if sorters[tn] && a.bad[tn] == "" && st.Field(fa.Field).Name() == "items" {
+						if o := a.origin(in.Val, seenSet{}); o.o > CallLocal {
+							a.bad[tn], changed = "items initialised from "+originNames[o.o]+" "+clip(o.path, 40)+" in "+fnName(f), true
+						}
+					}
+				case ssa.CallInstruction:
+					_, ops := a.callOperands(in)
+					for _, callee := range a.callees[in] {
+						for j, p := range callee.Params {
+							if j >= len(ops) || !pointerLike(p.Type()) {
+								continue
+							}
+							if j == 0 && callee.Signature.Recv() != nil {
+								tn := a.typeName(p.Type())
+								own, _ := ops[0].(*ssa.Parameter) // forwarding one's own receiver is fine
+								if perCall[tn] && !entryRecv[tn] && a.bad[tn] == "" && (own == nil || len(f.Params) == 0 || own != f.Params[0]) {
+									if o := a.origin(ops[0], seenSet{}); o.o > Fresh {
+										a.bad[tn], changed = "receiver "+clip(o.path, 40)+" in "+fnName(f)+" is "+originNames[o.o]+", not created during the call", true
+									}
+								}
+								continue
+							}
+							o := a.origin(ops[j], seenSet{})
+							if cur, ok := a.paramOrg[p]; !ok || o.o > cur.o {
+								a.paramOrg[p], changed = o, true
+							}
+						}
+					}
+				}
+			})
+		}
+	}
+}
+
+func refType(t types.Type) bool {
+	switch t.Underlying().(type) {
+	case *types.Pointer, *types.Slice, *types.Map, *types.Interface:
+		return true
+	}
+	return false
+}
+
+func (a *analyzer) records() []record {
+	var recs []record
+	for _, f := range a.fns {
+		if f.Synthetic != "" {
+			continue // wrappers have no source text; what they call is analysed
+		}
+		last := f.Pos()
+		instrs(f, func(in ssa.Instruction) {
+			if in.Pos().IsValid() {
+				last = in.Pos()
+			}
+			emit := func(kind string, o org, detail string) {
+				p := a.prog.Fset.Position(last)
+				recs = append(recs, record{fnName(f), filepath.Base(p.Filename), p.Line, p.Column, kind, o.o, detail})
+			}
+			switch in := in.(type) {
+			case *ssa.Store:
+				o := a.origin(in.Addr, seenSet{})
+				emit("store", o, o.detail())
+			case *ssa.MapUpdate:
+				o := a.origin(in.Map, seenSet{})
+				emit("mapupdate", o, o.detail())
+			case ssa.CallInstruction:
+				c := in.Common()
+				if b, ok := c.Value.(*ssa.Builtin); ok {
+					switch b.Name() {
+					case "append", "copy", "delete":
+						o := a.origin(c.Args[0], seenSet{})
+						if isNilConst(c.Args[0]) {
+							o = org{Fresh, "nil", "nil slice, append allocates"}
+						}
+						emit(b.Name(), o, o.detail())
+					}
+					return
+				}
+				if len(a.callees[in]) > 0 && !c.IsInvoke() {
+					return // stays inside the package: the callee's own writes are listed
+				}
+				name, ops := a.callOperands(in)
+				var worst org
+				var parts []string
+				for i, op := range ops {
+					idx := i - a.recvShift(in)
+					if !refType(op.Type()) || allowed(name, idx) {
+						continue
+					}
+					o := a.origin(op, seenSet{})
+					label := fmt.Sprintf("arg %d", idx)
+					if idx < 0 {
+						label = "receiver"
+					}
+					parts = append(parts, label+" = "+o.detail())
+					if len(parts) == 1 || o.o > worst.o {
+						worst = o
+					}
+				}
+				if len(parts) > 0 {
+					emit("call:"+name, worst, strings.Join(parts, "; "))
+				}
+			}
+		})
+	}
+	sort.SliceStable(recs, func(i, j int) bool {
+		x, y := recs[i], recs[j]
+		if x.file != y.file {
+			return x.file < y.file
+		}
+		if x.line != y.line {
+			return x.line < y.line
+		}
+		if x.col != y.col {
+			return x.col < y.col
+		}
+		if x.kind != y.kind {
+			return x.kind < y.kind
+		}
+		return x.detail < y.detail
+	})
+	return recs
+}
+
+func leanStr(s string) string {
+	s = strings.NewReplacer(`\`, `\\`, `"`, `\"`, "\n", " ", "\t", " ").Replace(s)
+	return `"` + s + `"`
+}
+
+func (a *analyzer) render(repo string, recs []record) string {
+	var sb strings.Builder
+	counts := make([]int, len(originNames))
+	for _, r := range recs {
+		counts[r.o]++
+	}
+	fmt.Fprintf(&sb, "-- GENERATED by /verif/tools/writesites from %s (working tree). Do not edit.\n", repo)
+	fmt.Fprintf(&sb, "-- package %s; roots: %s\n", a.pkg.Pkg.Path(), strings.Join(rootNames, ", "))
+	fmt.Fprintf(&sb, "-- %d reachable package functions, %d write sites:", len(a.fns), len(recs))
+	for i, n := range originNames {
+		fmt.Fprintf(&sb, " %s=%d", n, counts[i])
+	}
+	sb.WriteString("\n-- per-call receiver types: *Lexer, *Parser, *byExprFloat, *byExprString (sorters only while every\n")
+	sb.WriteString("--   store into their items field is fresh/callLocal)\n")
+	sb.WriteString("-- calls leaving the package write to every pointer/slice/map/interface operand, except (allowlist):\n")
+	for _, l := range allowlistText() {
+		sb.WriteString("--   " + l + "\n")
+	}
+	sb.WriteString("namespace Jmes.GeneratedWrites\n\ninductive Origin where\n  | fresh | callLocal | param | receiver | global | unknown\n  deriving DecidableEq, Repr\n\n")
+	sb.WriteString("structure WriteSite where\n  fn : String\n  pos : String\n  kind : String\n  origin : Origin\n  detail : String\n  deriving Repr\n\n")
+	sb.WriteString("def writeSites : List WriteSite := [\n")
+	for i, r := range recs {
+		sep := ","
+		if i == len(recs)-1 {
+			sep = ""
+		}
+		fmt.Fprintf(&sb, "  { fn := %s, pos := %s, kind := %s, origin := .%s, detail := %s }%s\n", leanStr(r.fn),
+			leanStr(fmt.Sprintf("%s:%d:%d", r.file, r.line, r.col)), leanStr(r.kind), originNames[r.o], leanStr(r.detail), sep)
+	}
+	sb.WriteString("]\n\nend Jmes.GeneratedWrites\n")
+	return sb.String()
 }
